@@ -721,7 +721,8 @@ class InPlaceSubObjects(Family):
         before = default_model()
         a = cls()
         src = lib_msg(base_model(t))
-        for k, v in list(vars(a).items()):
+        for k in sorted(set(vars(a)) | set(vars(src))):
+            v = getattr(a, k, None)           # instance or class attribute: whatever the object hands out under this name
             sv = vars(src).get(k)
             if isinstance(v, list):
                 v.extend(sv if isinstance(sv, list) and sv else [v[0]] if v else [])
